@@ -40,8 +40,8 @@ StepConfigs == {c \in AllConfigs : c.a \in {"deque", "nbdeque", "lifo"} => c.w =
 LosslessConfigs == {c \in StepConfigs : c.buf = 0 /\ (c.a = "chan" \/ (c.a \in {"queue", "deque"} /\ c.n = 0))}
 OneConfig == {[a |-> "queue", n |-> 0, w |-> 1, par |-> FALSE, buf |-> 0]}
 
-VARIABLES cfg, sub, reading, backlog, down, waits, recent, nmsg, hist
-vars == <<cfg, sub, reading, backlog, down, waits, recent, nmsg, hist>>
+VARIABLES cfg, sub, reading, backlog, atrisk, down, waits, recent, nmsg, hist
+vars == <<cfg, sub, reading, backlog, atrisk, down, waits, recent, nmsg, hist>>
 
 \* edge coverage up to renaming of subscribers; message numbers and ids are irrelevant for enabling.  The
 \* configuration is not part of the view: scenarios are generated once and the check driver pairs each
@@ -50,12 +50,13 @@ vars == <<cfg, sub, reading, backlog, down, waits, recent, nmsg, hist>>
 Count(st) == Cardinality({s \in Subs : sub[s] = st})
 LastKind == IF recent = {} THEN "none" ELSE (CHOOSE r \in recent : \A q \in recent : q.id <= r.id).kind
 view == <<Count("on"), Count("off") > 0, Cardinality(reading) > 0,
-          \E s \in Subs : sub[s] # "none" /\ s \notin reading, backlog, down, waits > 0, LastKind>>
+          \E s \in Subs : sub[s] # "none" /\ s \notin reading, backlog,
+          \E s \in atrisk : sub[s] = "off", \E s \in atrisk : sub[s] = "on", down, waits > 0, LastKind>>
 
 Rec(op, a, n) == [op |-> op, a |-> a, n |-> n, w |-> 0, par |-> FALSE, buf |-> 0]
 
 Init == \E c \in Configs :
-          /\ cfg = c /\ sub = [s \in Subs |-> "none"] /\ reading = {} /\ backlog = 0
+          /\ cfg = c /\ sub = [s \in Subs |-> "none"] /\ reading = {} /\ backlog = 0 /\ atrisk = {}
           /\ down = "no" /\ waits = 0 /\ recent = {} /\ nmsg = 0
           /\ hist = <<[op |-> "new", a |-> c.a, n |-> c.n, w |-> c.w, par |-> c.par, buf |-> c.buf]>>
 
@@ -75,44 +76,47 @@ Subscribe(s, x) == /\ sub[s] = "none"
                    /\ sub' = IF x THEN sub ELSE [sub EXCEPT ![s] = "on"]
                    /\ Do(IF x THEN "xsub" ELSE "sub", s, 0)
                    /\ IF x THEN Forget ELSE Remember("sub")
-                   /\ UNCHANGED <<cfg, reading, backlog, down, waits, nmsg>>
+                   /\ UNCHANGED <<cfg, reading, backlog, atrisk, down, waits, nmsg>>
 
 Unsubscribe(s, x) == /\ sub[s] = "on"
                      /\ sub' = [sub EXCEPT ![s] = "off"]
                      /\ Do(IF x THEN "xunsub" ELSE "unsub", s, 0)
                      /\ IF x THEN Forget ELSE Remember("unsub")
-                     /\ UNCHANGED <<cfg, reading, backlog, down, waits, nmsg>>
+                     /\ UNCHANGED <<cfg, reading, backlog, atrisk, down, waits, nmsg>>
 
 ReadOn(s) == /\ Holder(s) /\ s \notin reading
              /\ reading' = reading \cup {s} /\ backlog' = Drain(reading \cup {s})
+             /\ atrisk' = IF Drain(reading \cup {s}) = 0 THEN {} ELSE atrisk
              /\ Do("readon", s, 0) /\ Forget
              /\ UNCHANGED <<cfg, sub, down, waits, nmsg>>
 
 ReadOff(s) == /\ s \in reading
               /\ reading' = reading \ {s}
               /\ Do("readoff", s, 0) /\ Forget
-              /\ UNCHANGED <<cfg, sub, backlog, down, waits, nmsg>>
+              /\ UNCHANGED <<cfg, sub, backlog, atrisk, down, waits, nmsg>>
 
 Publish(p, b, x) == /\ nmsg + b <= MaxMsgs
                     /\ nmsg' = nmsg + b
                     /\ backlog' = IF Slow /\ down = "no" THEN (IF backlog + b > 2 THEN 2 ELSE backlog + b) ELSE backlog
+                    \* subscribers for which an accepted message may still be waiting behind a slow one
+                    /\ atrisk' = IF Slow /\ down = "no" /\ ~x THEN atrisk \cup {s \in Subs : sub[s] = "on"} ELSE atrisk
                     /\ Do(IF x THEN "xpub" ELSE "pub", p, b)
                     /\ IF x THEN Forget ELSE Remember("pub")
                     /\ UNCHANGED <<cfg, sub, reading, down, waits>>
 
 Stats(x) == /\ Do(IF x THEN "xstats" ELSE "stats", "", 0)
             /\ IF x THEN Forget ELSE Remember("stats")
-            /\ UNCHANGED <<cfg, sub, reading, backlog, down, waits, nmsg>>
+            /\ UNCHANGED <<cfg, sub, reading, backlog, atrisk, down, waits, nmsg>>
 
 Wait == /\ waits < 2 /\ waits' = waits + 1
         /\ Do("wait", "", 0) /\ Remember("wait")
-        /\ UNCHANGED <<cfg, sub, reading, backlog, down, nmsg>>
+        /\ UNCHANGED <<cfg, sub, reading, backlog, atrisk, down, nmsg>>
 
-Stop == /\ down # "stop" /\ down' = "stop" /\ backlog' = 0
+Stop == /\ down # "stop" /\ down' = "stop" /\ backlog' = 0 /\ atrisk' = {}
         /\ Do("stop", "", 0) /\ Forget
         /\ UNCHANGED <<cfg, sub, reading, waits, nmsg>>
 
-CancelParent == /\ down = "no" /\ down' = "parent" /\ backlog' = 0
+CancelParent == /\ down = "no" /\ down' = "parent" /\ backlog' = 0 /\ atrisk' = {}
                 /\ Do("cancelparent", "", 0) /\ Forget
                 /\ UNCHANGED <<cfg, sub, reading, waits, nmsg>>
 
@@ -120,7 +124,7 @@ CancelParent == /\ down = "no" /\ down' = "parent" /\ backlog' = 0
 Cancel(r) == /\ r \in recent
              /\ recent' = {q \in recent : q.id >= Id - 3} \ {r}
              /\ Do("cancel", "", r.id)
-             /\ UNCHANGED <<cfg, sub, reading, backlog, down, waits, nmsg>>
+             /\ UNCHANGED <<cfg, sub, reading, backlog, atrisk, down, waits, nmsg>>
 
 Step == \/ \E s \in Subs, x \in BOOLEAN : Subscribe(s, x) \/ Unsubscribe(s, x)
         \/ \E s \in Subs : ReadOn(s) \/ ReadOff(s)
@@ -133,7 +137,8 @@ Step == \/ \E s \in Subs, x \in BOOLEAN : Subscribe(s, x) \/ Unsubscribe(s, x)
 Next == Len(hist) < Depth /\ Step
 Spec == Init /\ [][Next]_vars
 
-Inv == /\ reading \subseteq {s \in Subs : Holder(s)}
+Inv == /\ atrisk \subseteq {s \in Subs : Holder(s)}
+       /\ reading \subseteq {s \in Subs : Holder(s)}
        /\ backlog \in 0..2 /\ nmsg <= MaxMsgs
        /\ \A r \in recent : r.id <= Len(hist) /\ hist[r.id].op \in {"sub", "unsub", "pub", "stats", "wait"}
 
